@@ -3524,6 +3524,11 @@ impl ToBitStream for Cuesheet {
                 tracks,
                 lead_out,
             } => {
+                // the field holds at most CATALOG_LEN digits
+                if catalog_number.len() > Self::CATALOG_LEN {
+                    return Err(CuesheetError::InvalidCatalogNumber.into());
+                }
+
                 w.write_from({
                     let mut number = [0; Self::CATALOG_LEN];
                     number
